@@ -5,11 +5,14 @@
    NewVersion; where range.go reads the fields major/minor/patch of a parsed version the model
    calls Cargo.Version.parse_core on the same (trimmed) text. *)
 From Verif.Base Require Import Bytes GoNum Ord.
+From Verif.Gen Require Operators.
 From Verif.Eco Require Import RangeCore.
 From Verif.Eco.Cargo Require Version.
 
 (* operators := []string{">=", "<=", "!=", ">", "<", "="} *)
-Definition cargo_ops : list bytes := [$">="; $"<="; $"!="; $">"; $"<"; $"="].
+(* the list is generated from the Go source on every run (tools/gen -> Gen/Operators.v) *)
+Definition cargo_ops : list bytes :=
+  Eval cbv delta [Verif.Gen.Operators.cargo_ops] in Verif.Gen.Operators.cargo_ops.
 
 Inductive kind :=
 | KCmp (op : bytes)          (* one of cargo_ops *)
